@@ -128,11 +128,15 @@ def _install(ci: ClassInfo, name: str, kind: str, fns: List[Optional[ast.Functio
     if kind == "method":
         ci.methods[name] = _instantiate(fns[0], env, name, at)
         ci.assigns.pop(name, None)
+        if name in ci.order:
+            ci.order.remove(name)
     else:
         ci.getters[name] = _instantiate(fns[0], env, name, at)
         if fns[1] is not None:
             ci.setters[name] = _instantiate(fns[1], env, name, at)
         ci.assigns.pop(name, None)
+        if name in ci.order:
+            ci.order.remove(name)
 
 
 def _const_text(e: ast.expr, env: Dict[str, ast.expr], names: Dict[str, str]) -> Optional[str]:
@@ -232,6 +236,8 @@ def synthesize(repo: Repo) -> int:
                         new.body = [sub.visit(st) for st in new.body]
                         ci.methods[name] = new
                         ci.assigns.pop(name, None)
+                        if name in ci.order:
+                            ci.order.remove(name)
                         added += 1
         # (3) module-level installation loops
         for node in sf.tree.body:
